@@ -91,7 +91,7 @@ func genAuthCfg(r *rand.Rand) vfCfg {
 		}
 	}
 	if chance(r, 0.5) {
-		c.CliTokenLife = pick(r, []string{"1h", "30m", "24h"})
+		c.CliTokenLife = pick(r, []string{"1h", "30m", "24h", "36h", "100h"})
 	}
 	c.GroupsLDAP = chance(r, 0.5)
 	if chance(r, 0.25) {
@@ -486,7 +486,25 @@ func genAuthPlan(r *rand.Rand, tier, focus string) *vfPlan {
 				if chance(r, 0.25) {
 					from = pick(r, vfSessNames)
 				}
-				add(vfStep{Op: "clisend", Sess: from, A: "last:clitoken", Target: pick(r, vfSessNames)})
+				tgt := pick(r, vfSessNames)
+				if u != "" && chance(r, 0.3) {
+					// the token is redeemed later by another session of the same user, one that holds less (or other) factors
+					from = pick(r, vfSessNames)
+					add(vfStep{Op: "mintsession", Sess: from, User: u, N: int64(pick(r, []int{AuthTypePassword, AuthTypePassword, AuthTypeU2F | AuthTypePassword, AuthTypeTOTP, AuthTypeWebauthForCLI})), D: pick(r, []string{"", "10m"})})
+					sessUser[from] = u
+					if chance(r, 0.3) {
+						add(vfStep{Op: "advance", D: pick(r, []string{"5m", "20m", "2h"})})
+					}
+				}
+				add(vfStep{Op: "clisend", Sess: from, A: "last:clitoken", Target: tgt})
+				if chance(r, 0.5) {
+					add(vfStep{Op: "certgen", Sess: tgt, User: "@jar", A: pick(r, []string{"ssh", "x509"}), B: pick(r, vfUserKeyNames), D: pick(r, durations)})
+				}
+				if chance(r, 0.3) {
+					// a CLI session lives as long as its token: it may be older than a day when it asks for a certificate
+					add(vfStep{Op: "advance", D: pick(r, []string{"23h", "24h1m", "30h", "50h"})})
+					add(vfStep{Op: "certgen", Sess: tgt, User: "@jar", A: pick(r, []string{"ssh", "x509"}), B: pick(r, vfUserKeyNames), D: pick(r, []string{"", "1h", "24h"})})
+				}
 			}
 		case x < 80 && focus == "C01" && chance(r, 0.4):
 			// a client certificate and a short-lived second-factor session of the same user; later both are presented together
